@@ -72,8 +72,10 @@ def run_task(task):
     out['status'] = st[0] if st[0] != 'exc' else 'exc:' + st[1].split(':')[0]
     first = next((p for p in params if p not in ('seed', 'copy')), None)
     for p, v0 in before.items():
-        if isinstance(v0, (np.ndarray, list, tuple, dict)):
+        if isinstance(v0, (np.ndarray, list, tuple, dict)) or ei.is_sparse(v0):
             out['arrays'] += 1
+            if ei.is_sparse(v0):
+                out['notes'].append('sparse_argument_snapshot')
             if task['copy'] is False and p == first:
                 continue                       # the array the caller asked to be modified in place
             if not ei.same(v0, kw[p]):
